@@ -39,10 +39,12 @@ class Ref:
     data[l][b] = object ndarray (nx, ny[, nz], nf), mins/maxs[l][b][f]."""
 
     def __init__(self, pid, ndims, fields, ncell0, boxes, layout=None, lo=None, dx0=None, time=0.5,
-                 steps=None, ref_line_extra=0, payload='sym', seed=0, nfiles_names=None, level_prefix='Level_'):
+                 steps=None, ref_line_extra=0, payload='sym', seed=0, nfiles_names=None, level_prefix='Level_', coord_sys=0):
         self.pid = pid
         # the main Header names each level's directory ('<dir>/Cell'); AMReX lets the writer choose the prefix
         self.level_prefix = level_prefix
+        # coordinate system line of the Header: 0 Cartesian, 1 cylindrical r-z, 2 spherical
+        self.coord_sys = coord_sys
         self.ndims = ndims
         self.fields = list(fields)
         self.nf = len(fields)
@@ -142,7 +144,7 @@ class Ref:
         L.append(' '.join(str(s) for s in self.steps) + ' ')
         for l in range(self.nlev):
             L.append(' '.join(fmt_float(x) for x in self.dx[l]) + ' ')
-        L.append('0')
+        L.append(str(self.coord_sys))
         L.append('0')
         for l in range(self.nlev):
             L.append('%d %d %s' % (l, len(self.boxes[l]), fmt_float(self.time)))
